@@ -35,6 +35,21 @@ site: http://bugseng.com/products/ppl/ . */
 # include <sys/time.h>
 #endif
 
+#ifdef PPL_VERIF
+// Verification seam (off unless PPL_VERIF is defined): a yield point at which
+// a simulator may advance its clock and deliver the timer signal.
+namespace Parma_Polyhedra_Library {
+extern void (*verif_yield_hook)(int site);
+}
+#define PPL_VERIF_WD_YIELD(site)                                   \
+  do {                                                          \
+    if (::Parma_Polyhedra_Library::verif_yield_hook != nullptr) \
+      ::Parma_Polyhedra_Library::verif_yield_hook(site);        \
+  } while (false)
+#else
+#define PPL_VERIF_WD_YIELD(site)
+#endif
+
 namespace Parma_Polyhedra_Library {
 
 // Set linkage now to declare it friend later.
